@@ -175,6 +175,15 @@ def nested_shape(x):
 # --------------------------------------------------------------------------------------------
 
 def gen_poly(rng):
+    if rng.random() < .12:
+        # many terms of equal total degree in one element (18-40 terms over 2-3 names): the printed order is the selected
+        # monomial order also where the sort has long runs of ties (seeded change C16-14: the graded pass lost its
+        # stability, visible from 16 terms on)
+        names = sorted(int(x) for x in rng.choice(range(13), size=int(rng.integers(2, 4)), replace=False))
+        base = gen.gen_struct(rng, names=names, shape=gen.choice(rng, [(), (), (2,)]), kind="int",
+                              nterms=int(rng.integers(18, 41)), maxexp=4, lim=3, zero_prob=0.05)
+        base["as"] = "poly"
+        return base
     kind = gen.choice(rng, ["int", "float", "complex", "bool", "pm1"], p=[.35, .2, .2, .1, .15])
     names = sorted(int(x) for x in rng.choice(range(13), size=int(rng.integers(1, 4)), replace=False))
     shape = gen.choice(rng, [(), (), (2,), (3,), (2, 2), (1, 2), (2, 3), (3, 2), (2, 1, 2)])
